@@ -477,6 +477,17 @@ def finish(prop, a, cfg, t0, violations, known_hits, obligations, discharged, ch
     if not a.replay:
         json.dump(ev, open(os.path.join(VERIF, "evidence", f"{prop}.json"), "w"), indent=1, ensure_ascii=False)
     for path, suffix in violations:
+        # one human-readable line per violation in front of the VIOLATION line: what failed, on which case (so that a log alone,
+        # without the replay file, tells a flaky oracle from a real regression)
+        try:
+            pl = json.load(open(path))
+            cid = (pl.get("case") or {}).get("id") if isinstance(pl.get("case"), dict) else None
+            first = ((pl.get("impl") or {}).get("oracle") or [{}])[0] if isinstance(pl.get("impl"), dict) else {}
+            detail = json.dumps({k: v for k, v in first.items() if k != "sig"}, ensure_ascii=False)[:300] if isinstance(first, dict) else ""
+            print(f"DETAIL property={getattr(a, 'parent', None) or prop} what={pl.get('signature') or pl.get('broken') or pl.get('what')} "
+                  f"case={cid} reproduced_on_rerun={pl.get('reproduced_on_rerun')} {detail}")
+        except Exception:
+            pass
         print(f"VIOLATION property={getattr(a, 'parent', None) or prop} replay={path}{suffix}")
     print(f"{prop} {a.tier}: {stats.get('cases', 0)} cases, model agrees on {stats.get('model_agree', 0)}, "
           f"theorems {discharged}/{obligations}, {len(violations)} violation(s), {wall:.1f}s")
